@@ -644,6 +644,26 @@ func (e *Engine) tryStub(name string, fn *ssa.Function, args []Value, g *Term, p
 			return r, true
 		}
 	}
+	switch name {
+	case "slices.SortStableFunc", "slices.SortFunc", "sort.SliceStable", "sort.Slice":
+		// sorting = stable adjacent-exchange sort driven by the caller's comparator (an unstable sort is modelled by
+		// its stable behaviour); avoids the data-dependent loops of the library implementation
+		e.StubsUsed[name+" (adjacent-exchange sort)"]++
+		e.sortStub(name, args, g, pos)
+		return nil, true
+	case "github.com/obolnetwork/charon/core/consensus/qbft.hashProto":
+		// deterministic marshalling + SSZ merkleization = ideal injective hash of the message's full field tuple
+		e.StubsUsed[name+" (ideal injective hash of all fields)"]++
+		h := e.hashApply("hashProto", []Value{args[0]})
+		return TupleV{[]Value{hashToArray(h, 32), IfaceV{}}}, true
+	case "google.golang.org/protobuf/proto.Clone":
+		e.StubsUsed[name+" (structural deep copy)"]++
+		return e.deepCopy(args[0], 0), true
+	case "(*google.golang.org/protobuf/types/known/anypb.Any).UnmarshalNew":
+		// the wrapped message is identified with the Any's payload bytes: returned as an *anypb.Any-free opaque message
+		e.StubsUsed[name+" (injective unwrap)"]++
+		return TupleV{[]Value{e.anyInner(args[0], g, pos), IfaceV{}}}, true
+	}
 	if r, ok := e.genericDataStub(name, fn, args, g, pos); ok {
 		return r, true
 	}
@@ -896,4 +916,78 @@ func (e *Engine) deepCopy(v Value, depth int) Value {
 		return out
 	}
 	return v
+}
+
+// anyInner models anypb.Any.UnmarshalNew: the inner message is a fresh copy of the Any (same payload bytes) typed as the
+// Any itself; hashProto (ideal) then hashes exactly the payload and type URL, so any change to either changes the hash.
+func (e *Engine) anyInner(anyPtr Value, g *Term, pos token.Pos) Value {
+	r, ok := anyPtr.(RefV)
+	if !ok {
+		panic(unsupported("UnmarshalNew on non-pointer"))
+	}
+	e.panicVC("UnmarshalNew on nil Any", pos, And(g, r.isNil()))
+	cp := e.deepCopy(r, 0).(RefV)
+	if len(cp.alts) == 0 {
+		return IfaceV{}
+	}
+	c := cp.alts[0].o.(*Cell)
+	return IfaceV{[]IfaceAlt{{TS.True, types.NewPointer(c.typ), cp}}}
+}
+
+func (e *Engine) sortStub(name string, args []Value, g *Term, pos token.Pos) {
+	var sl SliceV
+	switch x := args[0].(type) {
+	case SliceV:
+		sl = x
+	case IfaceV: // sort.Slice(x any, less)
+		if len(x.alts) != 1 {
+			panic(unsupported("sort.Slice on ambiguous interface"))
+		}
+		sv, ok := x.alts[0].v.(SliceV)
+		if !ok {
+			panic(unsupported("sort.Slice on non-slice"))
+		}
+		sl = sv
+	default:
+		panic(unsupported("sort on non-slice"))
+	}
+	byIndex := strings.HasPrefix(name, "sort.")
+	n := e.boundOf(sl.len, "sort length", g, pos)
+	at := func(i int) RefV { return e.elemRef(sl.arr, BinBV(OpAdd, sl.off, BV(64, uint64(i)))) }
+	for pass := 0; pass < n-1; pass++ {
+		for j := 0; j+1 < n-pass; j++ {
+			in := And(g, Cmp(OpULt, BV(64, uint64(j+1)), sl.len))
+			if in.IsFalse() {
+				continue
+			}
+			rj, rk := at(j), at(j+1)
+			if len(rj.alts) == 0 || len(rk.alts) == 0 {
+				continue
+			}
+			vj, vk := e.loadOr(rj), e.loadOr(rk)
+			var swap *Term
+			if byIndex {
+				r := e.callValue(args[1], []Value{BV(64, uint64(j+1)), BV(64, uint64(j))}, in, pos, nil)
+				t, ok := r.(*Term)
+				if !ok {
+					panic(unsupported("sort: comparator result"))
+				}
+				swap = t
+			} else {
+				r := e.callValue(args[1], []Value{vj, vk}, in, pos, nil)
+				t, ok := r.(*Term)
+				if !ok {
+					panic(unsupported("sort: comparator result"))
+				}
+				swap = Cmp(OpSLt, BV(t.W, 0), t) // cmp(a[j], a[j+1]) > 0
+			}
+			sg := And(in, swap)
+			for _, a := range rj.alts {
+				storeCell(a.o.(*Cell), And(sg, a.c), vk)
+			}
+			for _, a := range rk.alts {
+				storeCell(a.o.(*Cell), And(sg, a.c), vj)
+			}
+		}
+	}
 }
